@@ -130,6 +130,7 @@ func init() {
 				js = append(js, &Job{Pkg: pkgRunner, Func: "VerifC19Formats", Args: []int64{f, sh}, Timeout: 10 * time.Minute})
 			}
 		}
+		js = append(js, &Job{Pkg: pkgOutput, Func: "VerifC19Ansi", Timeout: 10 * time.Minute})
 		longs := []int64{4095, 4096, 4097, 5000}
 		if tier == "thorough" {
 			longs = append(longs, 8191, 8192, 8193, 10000)
@@ -150,15 +151,16 @@ func init() {
 		return js
 	}
 	register(&PropSpec{ID: "C19", Jobs: c19jobs,
-		Covers: []string{"C19.several-lines", "C19.more-lines-than-writes", "C19.long-line-checked", "C19.raw-forwarded", "C19.format-run-completed-without-crash", "C19.skipped-task-under-format", "C19.before-hook-failed-under-format"},
+		Covers: []string{"C19.several-lines", "C19.more-lines-than-writes", "C19.long-line-checked", "C19.ansi-checked", "C19.raw-forwarded", "C19.format-run-completed-without-crash", "C19.skipped-task-under-format", "C19.before-hook-failed-under-format"},
 		Bounds: map[string]interface{}{
-			"quick":    "(b) a task with optional condition and before hook run through the real TaskRunner under raw / prefixed / cockpit with symbolic outcomes: same commands, same recorded result, no panic. (a) prefixed: 2 Write calls of 0..3 bytes, every byte symbolic over all values except ESC (0x1b) and 0xc2; and 3 calls of 0..2 bytes over {a,b,CR,LF}; then WriteFooter. raw: 2 calls of 0..2 arbitrary bytes. Long lines: one line of 4095, 4096, 4097 and 5000 bytes (around bufio.Writer's buffer size) in one Write call, first / middle / last byte symbolic, the rest a concrete filler, optionally after a short unterminated chunk, optionally terminated: reaches the destination in ONE write, complete",
+			"quick":    "(b) a task with optional condition and before hook run through the real TaskRunner under raw / prefixed / cockpit with symbolic outcomes: same commands, same recorded result, no panic. (a) prefixed: 2 Write calls of 0..3 bytes, every byte symbolic over all values except ESC (0x1b) and 0xc2; and 3 calls of 0..2 bytes over {a,b,CR,LF}; then WriteFooter. raw: 2 calls of 0..2 arbitrary bytes. Long lines: one line of 4095, 4096, 4097 and 5000 bytes (around bufio.Writer's buffer size) in one Write call, first / middle / last byte symbolic, the rest a concrete filler, optionally after a short unterminated chunk, optionally terminated: reaches the destination in ONE write, complete. ANSI: streams of three segments, each one of {a, ESC[32m, LF, b ESC[0m, ESC[1;31m c, CR LF} (216 streams), written in two calls split at every byte position, also inside a sequence; on concrete bytes the real regexp package evaluates ansiRegexp",
 			"thorough": "long lines of 8191, 8192, 8193 and 10000 bytes as well; prefixed: 3 calls x 0..3 bytes and 2 calls x 0..4 bytes (any byte except ESC/0xc2), 4 calls x 0..2 bytes over {a,b,CR,LF}; raw: 3 calls x 0..3 bytes",
 		},
-		Outside:     []string{"long lines of other lengths than the ones listed, or with more than three non-filler bytes, or split over several Write calls", "ANSI escape sequences (ansiRegexp.ReplaceAllLiteral is modelled as the identity, which is exact only for inputs without ESC / U+009B; such bytes are excluded by assumption)", "interleaving of concurrent tasks: each task owns its decorator and every line reaches the sink in one Write call (asserted), so the concurrent claim follows if the sink's Write is atomic - assumed", "the spinner (briandowns/spinner) and its goroutine: stubbed; its lock ordering against the cockpit mutex is therefore not analysed"},
+		Outside:     []string{"long lines of other lengths than the ones listed, or with more than three non-filler bytes, or split over several Write calls", "ANSI escape sequences other than the three colour sequences of the ANSI harness; in the harnesses with symbolic bytes ansiRegexp.ReplaceAllLiteral is the identity, which is exact only for inputs without ESC / U+009B: such bytes are excluded there by assumption", "interleaving of concurrent tasks: each task owns its decorator and every line reaches the sink in one Write call (asserted), so the concurrent claim follows if the sink's Write is atomic - assumed", "the spinner (briandowns/spinner) and its goroutine: stubbed; its lock ordering against the cockpit mutex is therefore not analysed"},
 		Assumptions: []string{"fmt.Fprintf(dst, \"%s: %s\\r\\n\", name, p) is modelled as one dst.Write of the concatenation", "aurora.Cyan is presentation only (passes the name through)", "real SSA of bufio.ScanLines, bufio.Writer, bytes.IndexByte (intrinsic, branch-free) is executed"},
 		Replay: map[string]*ReplaySpec{"*": {PkgDir: "pkg/output", File: "C19_replay_test.go", Test: "TestVerifReplayC19"},
 			"VerifC19Long":    {PkgDir: "pkg/output", File: "C19_replay_test.go", Test: "TestVerifReplayC19Long"},
+			"VerifC19Ansi":    {PkgDir: "pkg/output", File: "C19_replay_test.go", Test: "TestVerifReplayC19Ansi"},
 			"VerifC19Formats": {PkgDir: "pkg/runner", File: "C19_formats_replay_test.go", Test: "TestVerifReplayC19Formats"}}})
 
 	c07jobs := func(tier string) []*Job {
@@ -168,11 +170,15 @@ func init() {
 			maxn = 4
 		}
 		for n := int64(0); n <= maxn; n++ {
-			if n > 0 {
-				js = append(js, &Job{Pkg: pkgMain, Func: "VerifC07Root", Args: []int64{n}, Timeout: 30 * time.Minute})
+			// deep = 0: runTask / runPipeline are recording stand-ins; 1: they are executed, the stand-ins are
+			// TaskRunner.Run / Scheduler.Schedule, and the summary flag / setting are symbolic
+			for deep := int64(0); deep <= 1; deep++ {
+				if n > 0 {
+					js = append(js, &Job{Pkg: pkgMain, Func: "VerifC07Root", Args: []int64{n, deep}, Timeout: 30 * time.Minute})
+				}
+				js = append(js, &Job{Pkg: pkgMain, Func: "VerifC07Run", Args: []int64{n, deep}, Timeout: 30 * time.Minute})
+				js = append(js, &Job{Pkg: pkgMain, Func: "VerifC07RunTask", Args: []int64{n, deep}, Timeout: 30 * time.Minute})
 			}
-			js = append(js, &Job{Pkg: pkgMain, Func: "VerifC07Run", Args: []int64{n}, Timeout: 30 * time.Minute})
-			js = append(js, &Job{Pkg: pkgMain, Func: "VerifC07RunTask", Args: []int64{n}, Timeout: 30 * time.Minute})
 		}
 		js = append(js, &Job{Pkg: pkgMain, Func: "VerifC07Main", Timeout: 5 * time.Minute})
 		return js
@@ -320,22 +326,31 @@ func init() {
 			// two threads cancelling concurrently while a run winds down through its context's after command
 			{Pkg: pkgRunner, Func: "VerifC12Cancel", Args: []int64{1, 1, 4, 2, 1}, Timeout: 30 * time.Minute, MaxSteps: 2000000000},
 			{Pkg: pkgRunner, Func: "VerifC12Cancel", Args: []int64{2, 1, 2, 2, 1}, Timeout: 30 * time.Minute, MaxSteps: 2000000000},
+			// through the scheduler: real Scheduler + real TaskRunner, cancelled from outside (mode 0) or by a stage-condition error (mode 1)
+			{Pkg: pkgScheduler, Func: "VerifC12Sched", Args: []int64{0, 0, 0}, Timeout: 12 * time.Minute, MaxSteps: 2000000000},
+			{Pkg: pkgScheduler, Func: "VerifC12Sched", Args: []int64{2, 0, 0}, Timeout: 12 * time.Minute, MaxSteps: 2000000000},
+			{Pkg: pkgScheduler, Func: "VerifC12Sched", Args: []int64{0, 1, 0}, Timeout: 12 * time.Minute, MaxSteps: 2000000000},
+			{Pkg: pkgScheduler, Func: "VerifC12Sched", Args: []int64{1, 1, 0}, Timeout: 12 * time.Minute, MaxSteps: 2000000000},
+			{Pkg: pkgScheduler, Func: "VerifC12Sched", Args: []int64{2, 1, 0}, Timeout: 12 * time.Minute, MaxSteps: 2000000000},
 		}
 		if tier == "thorough" {
-			js = append(js, &Job{Pkg: pkgRunner, Func: "VerifC12Cancel", Args: []int64{2, 1, 4}, Timeout: 60 * time.Minute, MaxSteps: 20000000000},
+			js = append(js, &Job{Pkg: pkgScheduler, Func: "VerifC12Sched", Args: []int64{1, 0, 0}, Timeout: 60 * time.Minute, MaxSteps: 20000000000},
+				&Job{Pkg: pkgScheduler, Func: "VerifC12Sched", Args: []int64{2, 0, 1}, Timeout: 60 * time.Minute, MaxSteps: 20000000000},
+				&Job{Pkg: pkgRunner, Func: "VerifC12Cancel", Args: []int64{2, 1, 4}, Timeout: 60 * time.Minute, MaxSteps: 20000000000},
 				&Job{Pkg: pkgRunner, Func: "VerifC12Cancel", Args: []int64{3, 1, 2}, Timeout: 60 * time.Minute, MaxSteps: 20000000000})
 		}
 		return js
 	}
 	register(&PropSpec{ID: "C12", Jobs: c12jobs,
-		Covers: []string{"C12.all-threads-returned", "C12.a-command-was-interrupted"},
+		Covers: []string{"C12.all-threads-returned", "C12.a-command-was-interrupted", "C12.sched-checked", "C12.sched.a-running-command-was-interrupted"},
 		Bounds: map[string]interface{}{
-			"quick":    "0, 1 (preemption-unbounded), 2 (preemption bound 3) and 3 (bound 1) concurrent TaskRunner.Run calls (1-2 commands, one with a before hook) + one thread calling Cancel once or twice, and two threads calling Cancel concurrently while the run(s) wind down through an execution context's after command; every interleaving at visible operations (RWMutex, channel close/receive, context cancel, command start/finish); command outcomes symbolic",
-			"thorough": "2 runs with preemption bound 4, 3 runs with bound 2",
+			"quick":    "0, 1 (preemption-unbounded), 2 (preemption bound 3) and 3 (bound 1) concurrent TaskRunner.Run calls (1-2 commands, one with a before hook) + one thread calling Cancel once or twice, and two threads calling Cancel concurrently while the run(s) wind down through an execution context's after command; every interleaving at visible operations (RWMutex, channel close/receive, context cancel, command start/finish); command outcomes symbolic, allow_failure of two tasks symbolic. Through the scheduler: pipelines of three stages (a, b after a, c | chain | three independent for the condition mode) with symbolic allow_failure per stage and task, run by the real Scheduler with the real TaskRunner, cancelled by another thread calling Scheduler.Cancel at any blocking point or by a stage condition that cannot be evaluated once commands run; preemption bound 0",
+			"thorough": "2 runs with preemption bound 4, 3 runs with bound 2; three independent stages cancelled from outside; the chain with preemption bound 1",
 		},
-		Outside:     []string{"that the interpreter stops a running command when its context is cancelled (mvdan DefaultExecHandler + the OS): assumed by the executor stub", "'within bounded time' is checked as absence of deadlock/livelock", "cancellation through the Scheduler (stage-condition error, Scheduler.Cancel): not yet a separate harness", "more than 3 concurrent runs"},
+		Outside:     []string{"that the interpreter stops a running command when its context is cancelled (mvdan DefaultExecHandler + the OS): assumed by the executor stub", "'within bounded time' is checked as absence of deadlock/livelock", "more than 3 concurrent runs / 3 stages"},
 		Assumptions: []string{"stub: Execute = start, yield, then the context's error if cancelled meanwhile else a symbolic outcome; a call made with an already-cancelled context starts nothing", "thread mode: sequential consistency at visible operations, data-race freedom of non-atomic fields between them", "engine intrinsics for sync.RWMutex, channels, context"},
-		Replay:      map[string]*ReplaySpec{"*": {PkgDir: "pkg/runner", File: "C12_replay_test.go", Test: "TestVerifReplayC12"}}})
+		Replay: map[string]*ReplaySpec{"*": {PkgDir: "pkg/runner", File: "C12_replay_test.go", Test: "TestVerifReplayC12"},
+			"VerifC12Sched": {PkgDir: "pkg/scheduler", File: "C12_sched_replay_test.go", Test: "TestVerifReplayC12Sched"}}})
 
 	c14jobs := func(tier string) []*Job {
 		var js []*Job
@@ -389,17 +404,22 @@ func init() {
 		for arr := int64(0); arr < 4; arr++ {
 			js = append(js, &Job{Pkg: pkgConfig, Func: "VerifC08", Args: []int64{arr, pb}, Timeout: 30 * time.Minute, MaxSteps: 2000000000})
 		}
+		// with the real TaskRunner: what the commands finally receive
+		for arr := int64(0); arr < 3; arr++ {
+			js = append(js, &Job{Pkg: pkgConfig, Func: "VerifC08Real", Args: []int64{arr, pb - 1}, Timeout: 30 * time.Minute, MaxSteps: 2000000000})
+		}
 		return js
 	}
 	register(&PropSpec{ID: "C08", Jobs: c08jobs,
-		Covers: []string{"C08.checked"},
+		Covers: []string{"C08.checked", "C08.real-checked"},
 		Bounds: map[string]interface{}{
-			"quick":    "4 stages sharing one task (s0 overrides env K, variable K and dir; s1 env K only; s2 nothing; s3 variable K only) in four dependency arrangements (parallel, two chains, mixed), followed by a second pipeline and a direct-run view of the same task; all values symbolic over a 3-element domain; thread mode with preemption bound 1",
-			"thorough": "preemption bound 2",
+			"quick":    "4 stages sharing one task (s0 overrides env K, variable K and dir; s1 env K only; s2 nothing; s3 variable K only) in four dependency arrangements (parallel, two chains, mixed), followed by a second pipeline and a direct-run view of the same task; all values symbolic over a 3-element domain; thread mode with preemption bound 1. With the REAL TaskRunner (executor stubbed): 3 stages sharing a task that optionally uses a named execution context (s0 overrides env K + a name of its own + variable K + dir, s1 env K + a name of its own, s2 nothing) in three arrangements, then a second pipeline and a direct run on the same runner: the environment, variables and directory each command finally receives; preemption bound 0",
+			"thorough": "preemption bound 2 (1 for the real-runner harness)",
 		},
-		Outside:     []string{"more than 3 stages / 1 key per kind", "what the commands then see in their process environment (C09)", "the CLI echo path"},
+		Outside:     []string{"more than 4 stages / 2 keys per kind", "how the interpreter hands the environment to child processes (C09 covers the list construction)", "the CLI echo path"},
 		Assumptions: []string{"runner.Runner replaced by a recording stand-in that reads t.Env / t.Variables / t.Dir at the call", "real: config.buildTask, config.buildPipeline, Scheduler.Schedule/runStage, variables.Variables (sync.Map intrinsic)"},
-		Replay:      map[string]*ReplaySpec{"*": {PkgDir: "internal/config", File: "C08_replay_test.go", Test: "TestVerifReplayC08"}}})
+		Replay: map[string]*ReplaySpec{"*": {PkgDir: "internal/config", File: "C08_replay_test.go", Test: "TestVerifReplayC08"},
+			"VerifC08Real": {PkgDir: "internal/config", File: "C08_real_replay_test.go", Test: "TestVerifReplayC08Real"}}})
 
 	c11jobs := func(tier string) []*Job {
 		js := []*Job{
@@ -410,6 +430,8 @@ func init() {
 			{Pkg: pkgRunner, Func: "VerifC11", Args: []int64{1, 2, 0, 2}, Timeout: 20 * time.Minute},
 			{Pkg: pkgConfig, Func: "VerifC11Exec", Args: []int64{2}, Timeout: 20 * time.Minute},
 			{Pkg: pkgConfig, Func: "VerifC11Exec", Args: []int64{3}, Timeout: 20 * time.Minute},
+			{Pkg: pkgConfig, Func: "VerifC11Ansi", Args: []int64{2}, Timeout: 20 * time.Minute},
+			{Pkg: pkgConfig, Func: "VerifC11Ansi", Args: []int64{3}, Timeout: 20 * time.Minute},
 		}
 		if tier == "thorough" {
 			js = append(js, &Job{Pkg: pkgRunner, Func: "VerifC11", Args: []int64{2, 2, 0, 2}, Timeout: 90 * time.Minute, MaxSteps: 2000000000},
@@ -421,13 +443,14 @@ func init() {
 	register(&PropSpec{ID: "C11", Jobs: c11jobs,
 		Covers: []string{"C11.producer-succeeded", "C11.producer-failed", "C11.exec-checked"},
 		Bounds: map[string]interface{}{
-			"quick":    "producer with 2 commands x {no, 1, 2} variations, every executed command printing 0..2 (0..1 for 2 variations) arbitrary symbolic bytes and succeeding or failing, allow_failure symbolic; producer name of 0..3 symbolic printable-ASCII characters, with and without exportAs; a consumer task run afterwards by the same runner",
+			"quick":    "producer with 2 commands x {no, 1, 2} variations, every executed command printing 0..2 (0..1 for 2 variations) arbitrary symbolic bytes and succeeding or failing, allow_failure symbolic; producer name of 0..3 symbolic printable-ASCII characters, with and without exportAs; a consumer task run afterwards by the same runner; with the REAL executor (VerifC11Exec): 2..3 commands each printing 0..2 arbitrary non-NUL bytes on stdout and optionally one on stderr, exportAs given or not, the consumer reads the exported name from the interpreter environment; the same under the prefixed output format with coloured output (VerifC11Ansi: each command prints one of four concrete texts with escape sequences)",
 			"thorough": "2 variations with 0..2 bytes per command, 3 variations, names of 4 characters",
 		},
 		Outside:     []string{"byte-exactness of bytes.Buffer and of the interpreter's writes (bytes.Buffer is modelled as string concatenation)", "non-ASCII task names, outputs longer than 2 bytes per command (64 KiB)", "that dependent stages run after the producer (C01)", "the claim is at wiring level: which writer / variable receives which text"},
 		Assumptions: []string{"stub: Execute writes the symbolic bytes to job.Stdout and returns them as the command's output; in VerifC11Exec the REAL DefaultExecutor.Execute / NewDefaultExecutor run (shared buffer, offset, MultiWriter) and only the interpreter is a stub printing symbolic bytes to the configured stdout and stderr", "regexp [^a-zA-Z0-9_] ReplaceAllString and strings.ToUpper: engine intrinsics (per-byte, ASCII)", "io.MultiWriter: real SSA"},
 		Replay: map[string]*ReplaySpec{"*": {PkgDir: "pkg/runner", File: "C11_replay_test.go", Test: "TestVerifReplayC11"},
-			"VerifC11Exec": {PkgDir: "pkg/runner", File: "C11_replay_test.go", Test: "TestVerifReplayC11Exec"}}})
+			"VerifC11Exec": {PkgDir: "pkg/runner", File: "C11_replay_test.go", Test: "TestVerifReplayC11Exec"},
+			"VerifC11Ansi": {PkgDir: "pkg/runner", File: "C11_replay_test.go", Test: "TestVerifReplayC11Exec"}}})
 
 	c13jobs := func(tier string) []*Job {
 		js := []*Job{
